@@ -384,12 +384,16 @@ func (st *c12State) caseConfig(i int64) {
 	if !direct && r.Intn(4) == 0 {
 		at := uint64(1 + r.Intn(40))
 		it2 := c12Interrupt(r)
+		storm := r.Intn(4) == 0 // the device raises the request again on every later access (e.g. a write trap wired to NMI)
 		mem.hook = func(n uint64) {
-			if n == at {
+			if n == at || (storm && n > at) {
 				cpu.Interrupt = it2
 			}
 		}
 		intClass += "+callback-raised"
+		if storm {
+			intClass += "(storm)"
+		}
 	}
 	st.class(mclass)
 	st.class(iclass)
